@@ -85,6 +85,7 @@ func (c *ChoquetIntegralBiasListener) Merge(params model.MethodParameters, addit
 	oldParams := params.(choquetParams)
 	newParams := addition.(choquetParams)
 	resultWeights := oldParams.weights.Merge(newParams.weights)
-	resultCriteria := append(*oldParams.criteria, *newParams.criteria...)
+	resultCriteria := make(model.Criteria, 0, len(*oldParams.criteria)+len(*newParams.criteria))
+	resultCriteria = append(append(resultCriteria, *oldParams.criteria...), *newParams.criteria...)
 	return choquetParams{weights: resultWeights, criteria: &resultCriteria}
 }
